@@ -724,7 +724,7 @@ class XsdAtomicBuiltin(XsdAtomic):
 
         try:
             result: DecodedValueType = self.to_python(obj)
-        except (ValueError, DecimalException) as err:
+        except (ValueError, ArithmeticError) as err:
             context.decode_error(validation, self, obj, self.to_python, err)
             return None
         except TypeError:
